@@ -11,7 +11,7 @@ import json
 import shutil
 import sys
 
-from .. import conv, core, tlc
+from .. import conv, core, faultsites, tlc
 
 SURF_OK = {
     ('px', 1): [1], ('py', 1): [1], ('pz', 1): [1], ('p', 4): [1, 0, 0, 1], ('p', 9): [1, 0, 0, 0, 1, 0, 0, 0, 1],
@@ -135,7 +135,103 @@ def run_one(job):
             'control_text': ctext}
 
 
+def every_card(chk):
+    """Faults injected at every applicable card (FaultSites.tla) of valid generated decks of every family."""
+    import random
+    thorough = chk.tier == 'thorough'
+    rng = random.Random(chk.seed + 17)
+    try:
+        decks = faultsites.pool(chk, thorough, chk.seed)
+        core.lap('pool of %d decks' % len(decks))
+        sites = faultsites.sites_of(chk, decks)
+    except tlc.TLCFailure as exc:
+        chk.machinery(str(exc))
+        return
+    core.lap('FaultSites')
+    per_deck = 16 if thorough else 5
+    jobs, meta = [], {}
+    nsites = 0
+    for i, d in enumerate(decks):
+        fs = sites.get(i + 1, [])
+        nsites += len(fs)
+        if not fs:
+            continue
+        # one of every class first, then at random
+        rng.shuffle(fs)
+        seen, first, rest = set(), [], []
+        for f in fs:
+            (rest if f['class'] in seen else first).append(f)
+            seen.add(f['class'])
+        chosen = (first + rest)[:max(per_deck, len(first))]
+        jobs.append(((i + 1) * 1000, d, None))
+        for j, f in enumerate(chosen):
+            tid = (i + 1) * 1000 + j + 1
+            meta[tid] = (i, f)
+            jobs.append((tid, d, f))
+    results = conv.run_batch(faultsites.run_site, jobs, chunksize=8)
+    core.lap('converter x%d' % len(jobs))
+    byid = {}
+    for r in results:
+        if 'machinery_error' in r:
+            chk.machinery(r['machinery_error'])
+        else:
+            byid[r['tid']] = r
+    recs, bad_controls = [], {}
+    for tid, (i, f) in sorted(meta.items()):
+        ctl = byid.get((i + 1) * 1000)
+        r = byid.get(tid)
+        if ctl is None or r is None:
+            continue
+        if ctl['result'] != 'ok':
+            bad_controls[i] = ctl
+            continue
+        recs.append({'tid': tid, 'control': ctl['result'], 'result': r['result'], 'diag': r['diag'], 'expected': 'error'})
+    sd = tlc.scratch_dir('c17')
+    core.write_blocks(sd, recs)
+    try:
+        val = tlc.run('TraceFault', 'INIT Init\nNEXT Next\nCHECK_DEADLOCK FALSE\n', env={'TRACE_DIR': sd}, workers=16)
+    except tlc.TLCFailure as exc:
+        chk.machinery(str(exc))
+        return
+    finally:
+        shutil.rmtree(sd, ignore_errors=True)
+    chk.add_tlc(val)
+    nval = 0
+    for b in core.collect_blocks(val):
+        nval += b['n']
+        for tid, verdict in b['bad']:
+            i, f = meta[tid]
+            r = byid[tid]
+            sig = {'clause': verdict, 'class': f['class'], 'site': f['site'], 'variant': f['variant'],
+                   'errtype': r['err']['type'] if r['err'] else None, 'family': decks[i]['family'], 'where': 'every_card'}
+            chk.violation(sig, {'text': r['text'], 'opts': r['opts'], 'error': r['err'], 'fault': f,
+                                'control_text': byid[(i + 1) * 1000]['text']})
+    if nval != len(recs):
+        chk.machinery('TraceFault validated %d of %d site records' % (nval, len(recs)))
+    core.lap('TraceFault')
+    chk.cov['traces_validated_against_impl'] += nval
+    chk.cov['evaluations'] += nval + len(decks)
+    chk.cov['distinct_nontrivial'] += nval
+    classes = {}
+    for tid, (i, f) in meta.items():
+        key = f['class'] + '/' + decks[i]['family']
+        classes[key] = classes.get(key, 0) + 1
+    chk.extra['every_card'] = {'decks': len(decks), 'sites_defined_by_spec': nsites, 'sites_injected': len(meta),
+                               'validated': nval, 'controls_not_converting': len(bad_controls),
+                               'injected_per_class_and_family': dict(sorted(classes.items()))}
+    if len(bad_controls) > max(3, len(decks) // 20):
+        ex = next(iter(bad_controls.values()))
+        chk.machinery('%d control decks of the fault pool do not convert, e.g. %r\n%s'
+                      % (len(bad_controls), ex['err'], ex['text']))
+    for tid in sorted(meta)[:2]:
+        if tid in byid:
+            chk.sample({'fault': meta[tid][1], 'deck_text': byid[tid]['text'], 'opts': byid[tid]['opts'],
+                        'outcome': byid[tid]['result'], 'error': byid[tid]['err']}, limit=5)
+
+
 def main():
+    from .. import replay
+    replay.maybe_replay('C17')
     chk = core.Check('C17', level='fault_enumeration')
     core.lap('start')
     try:
@@ -181,6 +277,8 @@ def main():
     chk.cov['traces_validated_against_impl'] = nval
     chk.cov['evaluations'] = 2 * nval
     chk.cov['distinct_nontrivial'] = sum(1 for r in good if r['control'] == 'ok')
+    core.lap('base-deck faults')
+    every_card(chk)
     for r in good[:1] + good[len(good) // 2:len(good) // 2 + 2]:
         chk.sample({'fault': r['fault'], 'deck_text': r['text'], 'opts': r['opts'], 'outcome': r['result'], 'error': r['err']})
     chk.extra['rule'] = ('one case per fault record (class, site, variant) of Faults.tla, each with its un-injected control; '
